@@ -302,7 +302,7 @@ pub fn run(ctx: &Ctx) -> &'static str {
     ctx.explore(
         "closed-loop",
         "closed-loop classic-mode histories on the real shell (1..4 links, guard off, any starting window vector): client datagrams of every kind incl. retransmit-flagged and inside a critical window, flushes, real SRTLA ACK / SRT ACK / NAK packets, housekeeping ticks, timeouts and REG3; chosen link (from queue/wire diff), windows, in-flight and queue depth compared with the reference after every op; non-trivial = >=1 decision with >=2 usable links of different score and >=1 window change",
-        ctx.tier.pick(6_000, 150_000),
+        ctx.tier.pick(30_000, 300_000),
         || strategy(mo),
         |_| |c: &Case, o: &mut Obs| check(c, o, ctx),
     );
